@@ -377,6 +377,15 @@ def flattenChoices (level : String) : Choices → List Act
   | (c, cfs) :: r => flatten (level ++ c ++ ":") "" cfs ++ flattenChoices level r
 end
 
+/-- `_is_branch_key` on the strings (characters): some destination continues the key AFTER A "." —
+    `action.dest.startswith(key + ".")`.  The boundary matters: `epoch` is not a branch of `epochs`. -/
+def isBranchKeyL (dests : List (List Char)) (key : List Char) : Bool :=
+  dests.any fun d => (key ++ ['.']).isPrefixOf d
+
+/-- `_is_branch_key(parser, key)` for the parser at `level` and a key whose root is not a subcommand name -/
+def isBranchKey (acts : List Act) (level key : String) : Bool :=
+  isBranchKeyL ((acts.filter fun a => a.level = level).map fun a => a.dest.toList) key.toList
+
 /-- is the option `--k` (given at parser level `level`) one of the parser's options? -/
 def recognised (acts : List Act) (level k : String) : Bool :=
   acts.any fun a => a.level = level && (a.optKeys.contains k || (a.kind = .cls && (a.dest ++ ".").isPrefixOf k))
